@@ -9,6 +9,10 @@ package playback
 //   w <track> <dts> <ntpMs> <k|n> <id>      one sample into the REAL formatFMP4Track.write; answer = structural
 //                                           description of every segment file on disk right now, i.e. the crash
 //                                           image at this write boundary (files parsed with mediacommon)
+//   wf <n> <track> <dts> <ntpMs> <k|n> <id> the same, but if the current segment file exists RLIMIT_FSIZE is lowered to
+//                                           (its size + n) for the duration of the write: a part flush then fails after the
+//                                           OS accepted n bytes; the limit is restored when the writer reports the error
+//                                           (storage works again when the instance closes)
 //   close                                   normal termination (formatFMP4.close); answer = files on disk
 //   restart <sid>                           close + new recorder instance (new stream id) in the same directory
 //   concat <i> <j>                          real segmentFMP4CanBeConcatenated on the headers of files i, j
@@ -21,9 +25,11 @@ import (
 	"bytes"
 	"fmt"
 	"os"
+	"os/signal"
 	"path/filepath"
 	"sort"
 	"strings"
+	"syscall"
 	"testing"
 	"time"
 
@@ -47,6 +53,8 @@ type verifC27State struct {
 	cur     []byte
 	curPath string
 	gated   bool
+
+	onWriteError func(error)
 }
 
 var verifC27 verifC27State
@@ -71,6 +79,11 @@ func verifC27Start(sid int) {
 	s.rec = &recorder.VerifRec{
 		Dir: s.dir, PathName: "p", SegmentDuration: s.segDur, PartDuration: s.partDur, Tracks: s.tracks,
 		StreamID: id, OnCreate: func(p string) { s.paths = append(s.paths, p) }, Gated: s.gated,
+		OnWriteError: func(err error) {
+			if s.onWriteError != nil {
+				s.onWriteError(err)
+			}
+		},
 	}
 	s.rec.Start()
 }
@@ -86,9 +99,24 @@ func verifC27Describe(b []byte) string {
 		return "nomtxi"
 	}
 	hl := verifC27HeaderLen(b)
+	// header + complete moof/mdat pairs; whatever follows is reported as the torn tail
+	valid := hl
+	for valid+8 <= len(b) && string(b[valid+4:valid+8]) == "moof" {
+		m := int(uint32(b[valid])<<24 | uint32(b[valid+1])<<16 | uint32(b[valid+2])<<8 | uint32(b[valid+3]))
+		if m < 8 || valid+m+8 > len(b) || string(b[valid+m+4:valid+m+8]) != "mdat" {
+			break
+		}
+		d2 := int(uint32(b[valid+m])<<24 | uint32(b[valid+m+1])<<16 | uint32(b[valid+m+2])<<8 | uint32(b[valid+m+3]))
+		if d2 < 8 || valid+m+d2 > len(b) {
+			break
+		}
+		valid += m + d2
+	}
 	var parts fmp4.Parts
-	if err = parts.Unmarshal(b[hl:]); err != nil {
-		return "badparts"
+	if valid > hl {
+		if err = parts.Unmarshal(b[hl:valid]); err != nil {
+			return "badparts"
+		}
 	}
 	var sb strings.Builder
 	fmt.Fprintf(&sb, "#%d dts=%d ntp=%d hdr=%d [", mtxi.SegmentNumber, mtxi.DTS, mtxi.NTP, int64(d/time.Millisecond))
@@ -116,6 +144,9 @@ func verifC27Describe(b []byte) string {
 		}
 	}
 	sb.WriteByte(']')
+	if valid < len(b) {
+		fmt.Fprintf(&sb, " torn=%d", len(b)-valid)
+	}
 	return sb.String()
 }
 
@@ -184,6 +215,39 @@ func verifC27Exec(op string) string {
 		s.gated = len(f) > 5 && f[5] == "g"
 		verifC27Start(verifutil.Atoi(f[4]))
 		return "ok"
+
+	case "wf":
+		// fault injection: the next part flush into the existing segment file fails after n bytes
+		n := verifutil.Atoi(f[1])
+		p := s.rec.CurrentSegmentPath()
+		if p == "" {
+			return verifC27Exec("w " + strings.Join(f[2:], " "))
+		}
+		st, err := os.Stat(p)
+		if err != nil {
+			panic(err)
+		}
+		signal.Ignore(syscall.SIGXFSZ)
+		var old syscall.Rlimit
+		if err = syscall.Getrlimit(syscall.RLIMIT_FSIZE, &old); err != nil {
+			panic(err)
+		}
+		restored := false
+		restore := func() {
+			if !restored {
+				restored = true
+				syscall.Setrlimit(syscall.RLIMIT_FSIZE, &old) //nolint:errcheck
+			}
+		}
+		lim := syscall.Rlimit{Cur: uint64(st.Size()) + uint64(n), Max: old.Max}
+		if err = syscall.Setrlimit(syscall.RLIMIT_FSIZE, &lim); err != nil {
+			panic(err)
+		}
+		s.onWriteError = func(error) { restore() }
+		out := verifC27Exec("w " + strings.Join(f[2:], " "))
+		restore()
+		s.onWriteError = nil
+		return out
 
 	case "w":
 		id := verifutil.Atoi(f[5])
@@ -511,6 +575,24 @@ func verifC27GenMode(r *verifutil.Rand, i int, thorough bool, plain bool) []stri
 			}
 		}
 	}
+	// write error on a part flush (the process continues): 1 history in 4, somewhere in the second half
+	if !plain && r.Chance(1, 4) {
+		var ws []int
+		for k, o := range ops {
+			if strings.HasPrefix(o, "w ") && k > len(ops)/2 {
+				ws = append(ws, k)
+			}
+		}
+		if len(ws) > 0 {
+			from := ws[r.Intn(len(ws))]
+			n := 1 + r.Intn(60)
+			for _, k := range ws {
+				if k >= from { // every later write is armed too: the first one that flushes a part fails
+					ops[k] = fmt.Sprintf("wf %d %s", n, ops[k][2:])
+				}
+			}
+		}
+	}
 	crash := r.Chance(1, 3)
 	if !crash {
 		ops = append(ops, "close")
@@ -597,6 +679,11 @@ func TestVerifC27(t *testing.T) {
 				return "cut-" + zz + "/" + l + "," + a[1] + "," + sv
 			case "w":
 				return fmt.Sprintf("w/files=%d", strings.Count(impl, "#"))
+			case "wf":
+				if strings.Contains(impl, " torn=") {
+					return "wf/part-write-failed"
+				}
+				return "wf/no-flush"
 			case "concat":
 				return "concat/" + impl
 			case "file":
